@@ -72,6 +72,17 @@ def run(fx, rep, tier):
             rep.obls.append(o)
     # a*b = b*a also where a conversion is not multiplicative (°C, °F): each operand's units are re-derived on its own value
     c04.r9_operand_faithful(facts, rep, "C13-R7")
+    # a/a is the dimensionless one whenever a is not zero *in base units*: the divisor is tested for zero after it was
+    # normalised (0 °C is 273.15 K), and the quotient is computed behind that test
+    from . import c01
+    rep.rule("C13-R8", "a / a = 1: the zero test of a divisor is made on the normalised value and dominates the division "
+                       "(summary of eval::div, shared with C01-R4)")
+    s8 = type(rep)(rep.prop, rep.tier)
+    c01.r4_operators(facts, s8)
+    for o in s8.obls:
+        if o["rule"] == "C01-R4" and o["key"].startswith("div"):
+            o["rule"] = "C13-R8"
+            rep.obls.append(o)
     sub = type(rep)(rep.prop, rep.tier)
     c05.powers_are_base_only(facts, sub, "C13-R4")
     for o in sub.obls:
